@@ -142,9 +142,6 @@ func inlinable(g *ssa.Function) (bool, string) {
 	if g.Parent() != nil || len(g.FreeVars) > 0 {
 		return false, "closure"
 	}
-	if len(g.AnonFuncs) > 0 {
-		return false, "contains closures"
-	}
 	if g.Recover != nil {
 		return false, "recover block"
 	}
@@ -456,6 +453,35 @@ func (p *Prog) inlineUnknownHelpers() error {
 	if len(unknown) == 0 {
 		return nil
 	}
+	// a helper that contains closures is moved, not copied: only when it has a single call site and can be dropped afterwards
+	for g := range unknown {
+		if len(g.AnonFuncs) == 0 {
+			continue
+		}
+		n := 0
+		other := false
+		var ops [16]*ssa.Value
+		for _, fn := range p.Funcs {
+			for _, b := range fn.Blocks {
+				for _, in := range b.Instrs {
+					for _, op := range in.Operands(ops[:0]) {
+						if *op != ssa.Value(g) {
+							continue
+						}
+						if cl, ok := in.(*ssa.Call); ok && cl.Call.Value == ssa.Value(g) && !cl.Call.IsInvoke() {
+							n++
+						} else {
+							other = true
+						}
+					}
+				}
+			}
+		}
+		if n != 1 || other || (g.Object() != nil && g.Object().Exported()) {
+			delete(unknown, g)
+			inlineLog = append(inlineLog, p.FuncName(g)+": new function with closures, not inlined (not exactly one plain call site)")
+		}
+	}
 	callsUnknown := func(fn *ssa.Function) []*ssa.Call {
 		var out []*ssa.Call
 		for _, b := range fn.Blocks {
@@ -510,6 +536,11 @@ func (p *Prog) inlineUnknownHelpers() error {
 						break
 					}
 					inlineCall(fn, site, g)
+					for _, a := range g.AnonFuncs {
+						setUnexported(a, "parent", fn)
+						fn.AnonFuncs = append(fn.AnonFuncs, a)
+						p.encl[a] = fn
+					}
 					touched[fn] = true
 					n++
 					if n > 200 {
@@ -544,6 +575,18 @@ func (p *Prog) inlineUnknownHelpers() error {
 	keep := p.Funcs[:0]
 	for _, fn := range p.Funcs {
 		if done[fn] && !referred[fn] && (fn.Object() == nil || !fn.Object().Exported()) {
+			for _, b := range fn.Blocks {
+				for _, in := range b.Instrs {
+					for _, op := range in.Operands(ops[:0]) {
+						if *op != nil {
+							removeReferrer(*op, in)
+						}
+					}
+				}
+			}
+			if len(fn.AnonFuncs) > 0 {
+				fn.AnonFuncs = nil
+			}
 			continue
 		}
 		keep = append(keep, fn)
